@@ -143,6 +143,19 @@ PROPS = {
         'level_note': 'Trusted: rustc front end + MIR, the extractor.',
         'technique': 'sibling-table agreement + who-may-write rules over resolved MIR (rustc_private driver)',
     },
+    'C12': {
+        'module': 'c12',
+        'explanation': 'Sibling-agreement and domination rules over MIR: the variant sets of has_hash, Hash for Value and PartialEq for '
+                       'Value nest (hashable subset of hashed subset of comparable); every HashMap<Value,..> operation on ObjHashMap.elements '
+                       'takes a key that passed has_hash/validate_hash_map_key on a dominating edge; hash_number canonicalises zero before '
+                       'taking the bit pattern (0.0 == -0.0); the target map is borrowed mutably only after validation. Key liveness is C01.R1.',
+        'assumptions': COMMON_ASSUME + ['std::collections::HashMap implements a map for coherent Hash/Eq'],
+        'not_decided': ['agreement with an abstract map over all operation histories', 'enumeration order / exactly-once of keys/values/items'],
+        'level_text': 'Decides H1-H4: the Hash/Eq coherence conditions under which the std HashMap is a map keyed by the language\'s ==.',
+        'design_ref': 'DESIGN.md section 1, C12',
+        'level_note': 'Trusted: rustc front end + MIR, the extractor, std HashMap.',
+        'technique': 'sibling variant-set agreement + dominator rules over resolved MIR (rustc_private driver)',
+    },
 }
 
 NOT_APPLICABLE = {
